@@ -1052,3 +1052,52 @@ Lemma fixed_cycle_rejected :
   let st := run demo_parse (init_state [] 4%N) [CAdd "tag/a" "red" "sport:80"; CAdd "tag/b" "red" "tag:a"] in
   step demo_parse st (CUpd "tag/a" (UQuery "tag:b")) = (Err ECycle, st).
 Proof. vm_compute. reflexivity. Qed.
+
+(* ---------------------------------------------------------------- any visiting order *)
+(* Go ranges over the map in an unspecified order that may differ in every pass.  [ords k] is the
+   order of pass k; it only has to visit every key. *)
+Fixpoint inherit_loop_ord (fuel : nat) (ords : nat -> list name) (all : list N) (ts : tags_t) (res : list name) : option walk :=
+  if all_resolved ts res then Some (ts, res)
+  else match fuel with
+       | O => None
+       | S f => let '(ts', res') := fold_left (inherit_visit all) (ords f) (ts, res) in inherit_loop_ord f ords all ts' res'
+       end.
+
+Lemma inherit_loop_ord_terminates : forall fuel ords all ts res,
+  wf_tags ts -> (forall k n, In n (keys ts) -> In n (ords k)) ->
+  List.length (unresolved ts res) <= fuel ->
+  exists ts' res', inherit_loop_ord fuel ords all ts res = Some (ts', res') /\ same_graph ts ts' /\ keys ts' = keys ts.
+Proof.
+  induction fuel as [|f IH]; intros ords all ts res W Hord Hle.
+  - assert (all_resolved ts res = true) as E.
+    { apply all_resolved_unresolved. destruct (unresolved ts res); auto. simpl in Hle. lia. }
+    simpl. rewrite E. exists ts, res. split; auto. split; auto using same_graph_refl.
+  - simpl. destruct (all_resolved ts res) eqn:E.
+    + exists ts, res. split; auto. split; auto using same_graph_refl.
+    + destruct (fold_left (inherit_visit all) (ords f) (ts, res)) as [ts1 res1] eqn:F.
+      destruct (fold_visit_props _ _ _ _ _ _ F) as [F1 [F2 [F3 F4]]].
+      pose proof W as [Wn Wc Wm [rank Wr]].
+      assert (exists k, In k (keys ts) /\ mem_s k res = false) as [k [Hk Hun]].
+      { unfold all_resolved in E. clear -E. induction (keys ts) as [|x l IHl]; simpl in E; [discriminate|].
+        destruct (mem_s x res) eqn:Ex; simpl in E.
+        - destruct (IHl E) as [k [H1 H2]]. exists k. split; auto. right; auto.
+        - exists x. split; auto. left; auto. }
+      apply get_In_keys in Hk.
+      destruct (exists_ready ts res rank Wc Wr (Datatypes.S (rank k)) k (Nat.lt_succ_diag_r _) Hk Hun) as [k' [t' [G' [Hun' Hall]]]].
+      assert (Hin' : In k' (keys ts)) by (apply get_In_keys; apply has_get; eauto).
+      pose proof (F4 k' t' (Hord f k' Hin') G' Hall) as Hres.
+      assert (W1 : wf_tags ts1) by (eapply wf_same_graph; eauto; rewrite F2; auto).
+      assert (Hlt : List.length (unresolved ts1 res1) < List.length (unresolved ts res)).
+      { unfold unresolved. rewrite F2. apply (filter_length_lt _ _ _ k'); auto.
+        - intros y Hy. apply negb_true_iff in Hy. apply negb_true_iff. apply mem_s_not_In. apply mem_s_not_In in Hy.
+          intros H. apply Hy. apply F3. auto.
+        - rewrite Hun'. reflexivity.
+        - apply negb_false_iff. apply mem_s_In. auto. }
+      destruct (IH ords all ts1 res1 W1) as [ts' [res' [L1 [L2 L3]]]]; [intros k0 n Hn; apply Hord; rewrite <- F2; auto|lia|].
+      exists ts', res'. split; auto. split; [eapply same_graph_trans; eauto|congruence].
+Qed.
+
+Theorem inherit_terminates_any_order : forall ords all ts, wf_tags ts ->
+  (forall k n, In n (keys ts) -> In n (ords k)) ->
+  exists ts' res', inherit_loop_ord (List.length ts) ords all ts [] = Some (ts', res') /\ same_graph ts ts' /\ keys ts' = keys ts.
+Proof. intros. apply inherit_loop_ord_terminates; auto. apply unresolved_le. Qed.
